@@ -24,6 +24,9 @@ DoRT ==
        ELSE IF ~Ev.ok THEN Report("C12", "a valid encoding was rejected", [t |-> Ev.t, id |-> Ev.id, err |-> Ev.err])
        ELSE /\ Chk(Eq(DescOf(Ev.t), Ev.tree, Ev.tree2), "C12", "decoding and encoding again changed the meaning of the encoding",
                    [t |-> Ev.t, id |-> Ev.id, tree |-> Ev.tree, tree2 |-> Ev.tree2])
+            /\ Chk(Ev.t # "Operation" \/ KeepsWhere(Ev.tree, Ev.tree2), "C12",
+                   "a select operation lost its where member (an empty where selects every row; without the member the request is invalid)",
+                   [t |-> Ev.t, id |-> Ev.id, tree2 |-> Ev.tree2])
             /\ Chk(Ev.equal, "C12", "the value decoded from the re-encoding differs from the value first decoded", [t |-> Ev.t, id |-> Ev.id, tree2 |-> Ev.tree2])
 
 DoDec ==
